@@ -201,8 +201,18 @@ def close_cases(tier, rng):
                 ["cv #01 0", "cv #0203 0", "cc"], ["cv #01 0", "cv #0203 1", "ck", "ck", "cc"], ["sz #01", "sz #02", "sw #03", "sk", "sk", "sc"],
                 ["sx", "sw #01", "sw #02", "sc", "sw #03"], ["sw #01", "sx", "sf", "sk", "sw #02"]):
         cs.append(q_case(ops, "writer"))
+    # the writer scripts once more with a write deadline (far in the future) set on both ends: a parked Write then waits in the branch of
+    # the out-queue that also watches the deadline (the handshake of the layer above sets one)
+    for c in [c for c in cs if c["tags"]["variant"].startswith("writer")]:
+        d = dict(c, tags=dict(c["tags"], variant=c["tags"]["variant"] + "+deadline"))
+        d["line"] = d["key"] = "c17qd" + c["line"][4:]
+        cs.append(d)
     for _ in range(3000 if thorough else 260):
         cs.append(q_case(gen_q(rng, 40 if thorough else 24), "random"))
+    for _ in range(600 if thorough else 40):
+        c = q_case(gen_q(rng, 40 if thorough else 24), "random+deadline")
+        c["line"] = c["key"] = "c17qd" + c["line"][4:]
+        cs.append(c)
     # the poll goroutine over scripted fates
     def p_case(cn, sn, fates, rn, variant):
         line = "c17p %d %d %d %s %d" % (cn, sn, len(fates), " ".join(fates), rn)
@@ -464,7 +474,7 @@ def oracle_p(case, impl):
 
 
 def oracle(case, impl):
-    if case["line"].startswith("c17q "):
+    if case["line"].startswith("c17q ") or case["line"].startswith("c17qd "):
         return oracle_q(case, impl)
     if case["line"].startswith("c17p "):
         return oracle_p(case, impl)
@@ -495,7 +505,7 @@ def oracle(case, impl):
 def shrink(case):
     """c17q scripts: one operation less (with its argument)."""
     p = case["line"].split()
-    if p[0] != "c17q":
+    if p[0] not in ("c17q", "c17qd"):
         return
     ops = []
     i = 1
@@ -506,7 +516,10 @@ def shrink(case):
     for j in range(len(ops)):
         rest = ops[:j] + ops[j + 1:]
         if rest:
-            yield q_case([" ".join(o) for o in rest], case["tags"].get("variant", "shrunk"))
+            c = q_case([" ".join(o) for o in rest], case["tags"].get("variant", "shrunk"))
+            if p[0] == "c17qd":
+                c["line"] = c["key"] = "c17qd" + c["line"][4:]
+            yield c
 
 
 def proj_p(obs):
@@ -537,7 +550,7 @@ def proj_p(obs):
 
 
 def agree(case, impl, model):
-    if case["line"].startswith("c17q "):
+    if case["line"].startswith("c17q ") or case["line"].startswith("c17qd "):
         return None if impl.strip() == model.strip() else "dns-close-protocol"
     if case["line"].startswith("c17p "):
         return None if proj_p(impl) == proj_p(model) else "dns-poll-close"
